@@ -28,7 +28,7 @@ use crate::{
     util::{zig_i32, zig_i64},
 };
 use log::error;
-use std::{borrow::Borrow, collections::HashMap, io::Write};
+use std::{borrow::Borrow, collections::HashMap, fmt::Debug, io::Write};
 
 /// Encode a `Value` into avro format.
 ///
@@ -66,7 +66,7 @@ pub(crate) fn encode_int<W: Write>(i: i32, writer: W) -> AvroResult<usize> {
     zig_i32(i, writer)
 }
 
-pub(crate) fn encode_internal<W: Write, S: Borrow<Schema>>(
+pub(crate) fn encode_internal<W: Write, S: Borrow<Schema> + Debug>(
     value: &Value,
     schema: &Schema,
     names: &HashMap<Name, S>,
@@ -81,6 +81,26 @@ pub(crate) fn encode_internal<W: Write, S: Borrow<Schema>>(
                 fully_qualified_name.into_owned(),
             ))?;
         return encode_internal(value, resolved.borrow(), names, enclosing_namespace, writer);
+    }
+
+    if let Schema::Union(union) = schema
+        && !matches!(value, Value::Union(_, _) | Value::Null | Value::Record(_))
+    {
+        // A bare value in a union-typed position (validation accepts it if a branch matches):
+        // write the index of the matching branch in front of it.
+        return match union.find_schema_with_known_schemata(value, Some(names), enclosing_namespace)
+        {
+            Some((index, inner_schema)) => {
+                let idx_bytes = encode_long(index as i64, &mut *writer)?;
+                Ok(idx_bytes
+                    + encode_internal(value, inner_schema, names, enclosing_namespace, writer)?)
+            }
+            None => Err(Details::EncodeValueAsSchemaError {
+                value_kind: ValueKind::from(value),
+                supported_schema: vec![SchemaKind::Union],
+            }
+            .into()),
+        };
     }
 
     match value {
